@@ -132,7 +132,8 @@ def capture_not_stratum(ctx, d, n=1):
     rows = [("mov", ["%rax", "%rax"]), ("mov", ["%rax", "%rbx"]), ("mov", ["%rcx", "%rcx"]), ("mov", ["%rcx", "%rdx"]),
             ("inc", ["%rsi"]), ("inc", ["%rsi"]), ("ret", []), ("inc", ["%rsi"]), ("inc", ["%rdi"]), ("ret", []),
             ("xor", ["%eax", "%eax"]), ("xor", ["%eax", "%ebx"]), ("add", ["%rax", "%rbx", ]), ("add", ["%rbx", "%rax"]),
-            ("lea", ["(%rax)", "%rcx"]), ("lea", ["(%rbx)", "%rcx"]), ("lea", ["0x8(%rbx)", "%rcx"]), ("lea", ["(%rdx,%rax,2)", "%rcx"])]
+            ("lea", ["(%rax)", "%rcx"]), ("lea", ["(%rbx)", "%rcx"]), ("lea", ["0x8(%rbx)", "%rcx"]), ("lea", ["(%rdx,%rax,2)", "%rcx"]),
+            ("nop", []), ("push", ["%rbx"]), ("pop", ["%rbx"]), ("nop", []), ("push", ["%rbx"]), ("pop", ["%rcx"]), ("cmp", ["%rax", "%rax"]), ("cmp", ["%rax", "%rdx"]), ("ret", [])]
     for m, ops in rows:
         insts.append(L.SInst(addr, m, list(ops), None, None, 3))
         addr += 3
@@ -149,7 +150,13 @@ def capture_not_stratum(ctx, d, n=1):
                 [{"mov": ["&src", {"$not": ["&src"]}]}], [{"xor": ["&a", {"$not": ["&a"]}]}], [{"mov": ["&s", "&s"]}, {"mov": ["&s", {"$not": ["&s"]}]}],
                 ["&first", {"$not": ["&first"]}, "ret"], ["&i", "&i", "ret"], ["&j", {"$not": ["&j"]}],
                 [{"mov": ["&genreg-a.64", {"$not": ["&genreg-a.64"]}]}], [{"xor": ["&genreg_b.32", {"$not": ["&genreg_b.32"]}]}],
-                [{"add": ["&x", "&y"]}, {"add": [{"$not": ["&x"]}, {"$not": ["&y"]}]}], [{"add": ["&x", "&y"]}, {"add": ["&y", {"$not": ["&y"]}]}]):
+                [{"add": ["&x", "&y"]}, {"add": [{"$not": ["&x"]}, {"$not": ["&y"]}]}], [{"add": ["&x", "&y"]}, {"add": ["&y", {"$not": ["&y"]}]}],
+                # names that live only inside one $not, with other captures defined and used after it
+                [{"$not": [{"mov": ["&src"]}]}, {"push": ["&saved"]}, {"$not": [{"pop": ["&saved"]}]}],
+                [{"$not": [{"mov": ["&src"]}]}, {"push": ["&saved"]}, {"pop": ["&saved"]}],
+                [{"$not": [{"cmp": ["&a", "&a"]}]}, "ret"], [{"$not": [{"mov": ["&a", "&a"]}]}, {"mov": ["&b", "&b"]}],
+                [{"$not": ["&whole"]}, "ret"], [{"$not": [{"$and": ["&one", "&one"]}]}, {"inc": ["&r"]}, {"$not": [{"inc": ["&r"]}]}],
+                [{"push": ["&p"]}, {"$not": [{"$and": [{"pop": ["&q"]}, "nop"]}]}, "nop", {"push": ["&p"]}]):
         d.run_pattern(pat, "base", True)
         ctx.event("capture_as_not_argument_probes")
     d.flags = saved
